@@ -2,6 +2,7 @@ import Driver.Util
 import Driver.SemDrv
 import Driver.SSemDrv
 import Driver.SchedDrv
+import Driver.RwDrv
 /-! `driver <model>`: reads harness output (cases) on stdin, prints one verdict line per case. -/
 open Driver
 
@@ -10,6 +11,7 @@ def dispatch (model : String) (c : Case) : String :=
   | "sem" => SemDrv.runCase c
   | "ssem" => SSemDrv.runCase c
   | "sched" => SchedDrv.runCase c
+  | "rw" => RwDrv.runCase c
   | _ => s!"case {c.id} reject 0 unknown-model-{model}"
 
 def main (args : List String) : IO UInt32 := do
